@@ -33,7 +33,7 @@ ASSUMPTIONS = [
     "nan/inf cannot be spelled as literals (inf only through overflowing exponents)",
 ]
 NSHARDS = {"quick": 16, "thorough": 16}
-BUDGET_S = {"quick": 15, "thorough": 500}
+BUDGET_S = {"quick": 10, "thorough": 500}
 EXH_LEN = {"quick": 4, "thorough": 5}
 FLOORS = {
     # the exhaustive number-spelling part is not time-boxed: 20+20^2+20^3+20^4 = 168420 lexed
